@@ -9,6 +9,9 @@ class TwinGen(Gen):
         x = self.rng.random()
         if x < 0.4 or not self.regs_of('SA'):
             text = self.text()
+            if self.rng.random() < 0.15:
+                ws = ['\u00a0', '\u2003', '\x1c', '\u2028', '\x85', ' ', '\t']
+                text = self.rng.choice(ws) + text + self.rng.choice(ws + [''])
             if self.rng.random() < 0.25:
                 text = '\x1b[1;38;5;3m' + text + '\x1b[m' + self.text()
             s = self.do({'op': 'new', 'cls': 'S', 'text': text, 'sets': forms, 'S': S})
@@ -176,6 +179,7 @@ class TwinGen(Gen):
 
 def gen_twins(m, rng, job):
     g = TwinGen(m, rng, W_BASE, maxlen=job.get('maxlen', 6), more=0.4, odd=job.get('odd', 0.05))
+    g.long = 0.01
     pair = None
     for _ in range(job.get('nops', 6)):
         if pair is None or rng.random() < 0.2:
